@@ -806,7 +806,7 @@ pub fn scene_of(prog: &Program) -> Expected {
             Call::Creation(v) => e.file.creation = v.clone(),
             Call::Blob { data, .. } => e.blobs.push(data.make()),
             Call::Pc { guid, proto, steps, end } => {
-                if classify_proto(proto, &registered) != Expect::MustAccept || *end != SubEnd::Finalize {
+                if classify_proto(proto, &registered) == Expect::MustReject || *end != SubEnd::Finalize {
                     continue;
                 }
                 let (il, cl) = default_limits(proto);
